@@ -21,6 +21,7 @@ import (
 	"math/rand/v2"
 	"net/http"
 	"os"
+	"strings"
 	"sync"
 	"sync/atomic"
 	"time"
@@ -71,8 +72,12 @@ func (h stressHandler) ServeHTTP(w http.ResponseWriter, r *http.Request) {
 		}
 	}
 	for _, vs := range w.Header() {
-		for _, v := range vs {
+		for i, v := range vs {
 			n += len(v)
+			// ... and rewrites its OWN response's header values in place (same bytes):
+			// legitimate for a handler, and a data race with Config()/other requests
+			// exactly when the middleware installed memory it shares with anybody else
+			vs[i] = strings.Clone(v)
 		}
 	}
 	if h.hook != nil {
